@@ -107,6 +107,7 @@ type VC struct {
 	assumptionsUsed map[string]bool
 	tolerant        bool // evaluating an exit clause: unresolved names are counted, not reported
 	missingNames    int
+	bytesCtx        int // >0 while evaluating an operation on a slice of integers (no sum facts)
 	boxFuncs  map[string]bool
 	ufuns     map[string]bool
 	outParams []*types.Var
